@@ -46,6 +46,49 @@ void prop_hash(const Case& cs) {
   vf::label(len % 16 == 0 ? "len%16==0" : "tail"); if (len >= 32) vf::label("len>=32");
   if (len > 0) vf::nontrivial();
 }
+// ------------------------------------------------------------------ typed inputs
+// "hashing of each input type matches the published definitions": one item of every supported input type (edge values included) is
+// offered through the typed update overloads of every hash-based sketch; what the sketch retains must be the MurmurHash3 of the
+// documented canonical form (integers sign-extended to 64 bits, floats as canonical double bits, strings / bytes as they are)
+template <typename SK, typename V> void feed_kv(SK& sk, const vf::Item& it, const V& val) {
+  switch (it.type) {
+    case vf::T_U64: sk.update(static_cast<uint64_t>(it.raw), val); break;
+    case vf::T_I64: sk.update(static_cast<int64_t>(it.raw), val); break;
+    case vf::T_U32: sk.update(static_cast<uint32_t>(it.raw), val); break;
+    case vf::T_I32: sk.update(static_cast<int32_t>(static_cast<uint32_t>(it.raw)), val); break;
+    case vf::T_U16: sk.update(static_cast<uint16_t>(it.raw), val); break;
+    case vf::T_I16: sk.update(static_cast<int16_t>(static_cast<uint16_t>(it.raw)), val); break;
+    case vf::T_U8: sk.update(static_cast<uint8_t>(it.raw), val); break;
+    case vf::T_I8: sk.update(static_cast<int8_t>(static_cast<uint8_t>(it.raw)), val); break;
+    case vf::T_F64: sk.update(vf::item_double(it.raw), val); break;
+    case vf::T_F32: sk.update(vf::item_float(it.raw), val); break;
+    case vf::T_STR: sk.update(vf::item_string(it.raw), val); break;
+    default: { std::string b = vf::item_bytes(it.raw); sk.update(static_cast<const void*>(b.data()), b.size(), val); }
+  }
+}
+void prop_typed(const Case& cs) {
+  vf::Item it{static_cast<int>(static_cast<uint64_t>(cs.get("type", 0)) % vf::T_NTYPES), static_cast<uint64_t>(cs.get("raw", 0))};
+  const uint64_t seed = cs.get("seedsel", 0) == 0 ? 9001ull : vf::mix64(static_cast<uint64_t>(cs.get("seedsel", 0)));
+  vf::H128 h; const bool counted = vf::ref_item_hash(it, seed, h);
+  const uint64_t want = h.h1 >> 1;
+  std::ostringstream who; who << "item type " << it.type << " raw " << it.raw << " seed " << seed;
+  auto expect = [&](const std::vector<uint64_t>& got, const char* fam) {
+    if (!counted || want == 0) { VF_CHECK(got.empty() || !counted == false, "typed-ignored", who.str() << ": " << fam); return; }
+    VF_CHECK(got.size() == 1 && got[0] == want, "typed-input-hash", fam << ", " << who.str() << ": retained " << (got.empty() ? 0 : got[0]) << " (" << got.size() << " entries), MurmurHash3 of the canonical form >> 1 is " << want);
+  };
+  { auto sk = update_theta_sketch::builder().set_seed(seed).build(); vf::feed(sk, it); std::vector<uint64_t> g; for (auto x : sk) g.push_back(x); expect(g, "theta"); }
+  { auto sk = update_tuple_sketch<double>::builder().set_seed(seed).build(); feed_kv(sk, it, 1.0); std::vector<uint64_t> g; for (const auto& e : sk) g.push_back(e.first); expect(g, "tuple"); }
+  { auto sk = update_array_of_doubles_sketch::builder(1).set_seed(seed).build(); std::vector<double> v(1, 1.0); feed_kv(sk, it, v); std::vector<uint64_t> g; for (const auto& e : sk) g.push_back(e.first); expect(g, "array of doubles"); }
+  // HLL (fixed seed 9001): the coupon of the single item, through the sketch and through the union
+  uint32_t coupon = 0; const bool hc = vf::ref_hll_item_coupon(it, coupon);
+  auto hll_coupons = [](const hll_sketch& sk) { auto b = sk.serialize_compact(); std::vector<uint32_t> c; if (b.size() >= 8 && (b[7] & 3) == 0) for (size_t i = 8; i + 4 <= b.size(); i += 4) c.push_back(vf::ref_le32(b.data() + i)); return c; };
+  { hll_sketch sk(12); vf::feed(sk, it); auto c = hll_coupons(sk); VF_CHECK(hc ? (c.size() == 1 && c[0] == coupon) : c.empty(), "typed-input-coupon", "hll sketch, " << who.str() << ": coupons " << c.size() << (c.empty() ? 0u : c[0]) << " expected " << coupon); }
+  { hll_union u(12); vf::feed(u, it); auto c = hll_coupons(u.get_result()); VF_CHECK(hc ? (c.size() == 1 && c[0] == coupon) : c.empty(), "typed-input-coupon", "hll union, " << who.str() << ": coupons " << c.size() << " expected " << coupon); }
+  vf::label("typed:" + std::to_string(it.type));
+  if (counted) vf::nontrivial();
+}
+rc::Gen<Case> gen_typed() { using namespace vf; return make_case({{"type", range(0, T_NTYPES - 1)}, {"raw", raw_gen()}, {"seedsel", range(0, 3)}}, rc::gen::just(std::vector<Op>{})); }
+
 void prop_vectors(const Case&) {
   struct V { const char* s; uint64_t h1, h2; };
   // published MurmurHash3_x64_128 vectors (seed 0)
@@ -259,6 +302,7 @@ int main(int argc, char** argv) {
   if (!vf::env("VF_CORPUS_FREEZE").empty()) return corpus_freeze(vf::env("VF_CORPUS_FREEZE"));
   std::vector<vf::Sub> subs;
   subs.push_back({"hashes", gen_hash, prop_hash, 1.0});
+  subs.push_back({"typed_inputs", gen_typed, prop_typed, 0.1});
   subs.push_back(vf::Sub{"hash_vectors", nullptr, prop_vectors, 1.0, -1, enum_vectors});
   subs.push_back(vf::Sub{"corpus", nullptr, prop_corpus, 1.0, -1, enum_corpus});
   subs.push_back(vf::Sub{"shipped", nullptr, prop_shipped, 1.0, -1, enum_shipped});
